@@ -18,7 +18,8 @@ def prepare():
     gens()
     from props import c07
     c07.gen_lex()
-    c07.gen()
+    from props import c08
+    c08.gen()
 
 
 def t6():
@@ -57,9 +58,9 @@ def run(tier, seed, t0):
     if not r6.violated and kf is not None:
         raise vlib.Inconclusive("T6 holds on the model but KNOWN_FINDINGS.jsonl still lists the walk: spec and findings file out of sync")
     # (ii)+(iii) sweep under the watchdog
-    from props import c07
+    from props import c07, c08
     ldata, lmeta = c07.gen_lex()
-    summ = json.loads(vlib.run_harness(["c05", od, wd, out, seed, tier], timeout=5000, env={"VERIF_LEXROWS": ldata, "VERIF_DOCROWS": c07.split(c07.gen()[0])[0]}))
+    summ = json.loads(vlib.run_harness(["c05", od, wd, out, seed, tier], timeout=5000, env={"VERIF_LEXROWS": ldata, "VERIF_DOCROWS": c07.split(c08.gen()[0])[0]}))
     # (iv) building and searching the segment indexes over the series layouts of C04 (sizes up to 65 538 points): a panic is C05's
     out4 = os.path.join(out, "c04")
     os.makedirs(out4, exist_ok=True)
@@ -106,7 +107,7 @@ def run(tier, seed, t0):
                 "constructor outputs, circles with zero/negative/NaN/huge radius, 70-point degenerate series, 2^16 coordinates). "
                 "(iii) Parse on model-rendered texts, every (strided) prefix, single-byte damage, 0x00/0x01 prefixes, nesting to depth "
                 "10000, and the ~100 000 texts generated from the state graph of the JSON automaton (JsonLex / Gen_Lex: one text per "
-                "transition, legal or not, in whole-text, member and coordinate position) and the ~11 000 documents of Gen_Doc, under 4-5 "
+                "transition, legal or not, in whole-text, member and coordinate position) and the ~17 000 documents of Gen_Doc (incl. out-of-range coordinates, Circle features, large documents), under 4-5 "
                 "option sets; every object Parse returns is then put through every unary method. (iv) the segment indexes are built and "
                 "searched over the series layouts of C04 (up to 65 538 points, 7 index configurations); a panic there is a violation here. All run in a worker process under a per-call watchdog (4 s); every abnormal outcome, "
                 "every walk and every Parse outcome is judged by Trace_C05. distinct_nontrivial = executed cases (all distinct)" % (
